@@ -57,6 +57,28 @@ def reserved_names():
     return _RESERVED
 
 
+_WORDS = None
+
+
+def reserved_words():
+    """Every identifier that occurs in the sources of sa/ (for helpers local
+    to a function, whose names carry no leading underscore)."""
+    global _WORDS
+    if _WORDS is None:
+        words = set()
+        here = os.path.dirname(os.path.abspath(__file__))
+        for root, _dirs, files in os.walk(here):
+            for fn in files:
+                if fn.endswith(".py") and fn not in ("variant_defs.py", "inline.py"):
+                    try:
+                        with open(os.path.join(root, fn), encoding="utf-8") as fh:
+                            words |= set(re.findall(r"[A-Za-z_][A-Za-z0-9_]*", fh.read()))
+                    except OSError:
+                        pass
+        _WORDS = words
+    return _WORDS
+
+
 def clone(n):
     if isinstance(n, list):
         return [clone(x) for x in n]
@@ -94,6 +116,21 @@ def _simple(e):
 
 def _names(node):
     return {n.id for n in ast.walk(node) if isinstance(n, ast.Name)}
+
+
+def _fold(node):
+    """`(a, b)[0]` -> `a` (a parameter replaced by a literal tuple)."""
+    class F(ast.NodeTransformer):
+        def visit_Subscript(self, n):
+            self.generic_visit(n)
+            if isinstance(n.value, (ast.Tuple, ast.List)) and \
+                    isinstance(n.slice, ast.Constant) and isinstance(n.slice.value, int) \
+                    and not isinstance(n.ctx, ast.Store) \
+                    and -len(n.value.elts) <= n.slice.value < len(n.value.elts) and \
+                    not any(isinstance(x, ast.Starred) for x in n.value.elts):
+                return n.value.elts[n.slice.value]
+            return n
+    return F().visit(node)
 
 
 class Helper:
@@ -203,6 +240,8 @@ class Inliner:
         self.cls_helpers = {}
         self.counter = 0
         self.done = []
+        self.local_cache = {}
+        self.local_done = []        # (enclosing FunctionDef, helper FunctionDef)
         for n in tree.body:
             if isinstance(n, ast.FunctionDef):
                 self._register(self.mod_helpers, n, "function")
@@ -235,6 +274,23 @@ class Inliner:
         enclosing (ClassDef | FunctionDef) nodes, or None."""
         f = call.func
         if isinstance(f, ast.Name):
+            # a helper defined locally in an enclosing function (closure)
+            for s in reversed(stack):
+                if isinstance(s, ast.FunctionDef):
+                    for st in s.body:
+                        if isinstance(st, ast.FunctionDef) and st.name == f.id:
+                            if stack[-1] is st or f.id in reserved_words() or st.decorator_list:
+                                return None
+                            if id(st) not in self.local_cache:
+                                self.local_cache[id(st)] = Helper(st, "function")
+                            h = self.local_cache[id(st)]
+                            if not h.shape:
+                                return None
+                            # free variables of the helper must mean the same at
+                            # the call site: no intermediate scope rebinding them
+                            return h, ("local", s)
+                    if f.id in {a.arg for a in s.args.args}:
+                        return None
             h = self.mod_helpers.get(f.id)
             if h is None:
                 return None
@@ -277,6 +333,8 @@ class Inliner:
             return None
         params = list(h.params)
         bind = {}
+        if isinstance(recv, tuple):
+            recv = None
         if h.kind in ("method", "class"):
             if recv is None or not params:
                 return None
@@ -339,6 +397,7 @@ class Inliner:
         locals_ = stored - set(bind)
         # a local that is returned as such takes the caller's name for it
         direct = {}
+        is_yield = isinstance(st, ast.Expr) and isinstance(st.value, ast.Yield)
         tgt = st.targets[0] if isinstance(st, ast.Assign) and len(st.targets) == 1 else None
         pairs = []
         if ret is not None and tgt is not None:
@@ -368,7 +427,10 @@ class Inliner:
                 continue
             out.append(ast.fix_missing_locations(rn.visit(clone(b))))
         rexpr = rn.visit(clone(ret)) if ret is not None else None
-        if isinstance(st, ast.Expr):
+        if is_yield:
+            y = ast.Yield(value=rexpr if rexpr is not None else ast.Constant(value=None))
+            out.append(ast.copy_location(ast.Expr(value=ast.copy_location(y, st.value)), st))
+        elif isinstance(st, ast.Expr):
             if rexpr is not None and not _simple(rexpr):
                 out.append(ast.copy_location(ast.Expr(value=rexpr), st))
         elif isinstance(st, ast.Return):
@@ -403,8 +465,11 @@ class Inliner:
                     ast.Assign(targets=clone(st.targets), value=rexpr), st))
         if not out:
             out.append(ast.copy_location(ast.Pass(), st))
+        out = [_fold(o) for o in out]
         for o in out:
             ast.fix_missing_locations(o)
+        if isinstance(recv, tuple):
+            self.local_done.append((recv[1], h.fn))
         self.done.append(h.fn.name)
         return out
 
@@ -430,6 +495,8 @@ class Inliner:
         for n in ast.walk(new):
             if not hasattr(n, "lineno"):
                 ast.copy_location(n, call)
+        if isinstance(recv, tuple):
+            self.local_done.append((recv[1], h.fn))
         self.done.append(h.fn.name)
         return ast.fix_missing_locations(new)
 
@@ -448,12 +515,15 @@ class Inliner:
             st = stmts[i]
             caller = next((s for s in reversed(stack) if isinstance(s, ast.FunctionDef)), None)
             rep = None
+            the_call = getattr(st, "value", None)
+            if isinstance(st, ast.Expr) and isinstance(the_call, ast.Yield):
+                the_call = the_call.value
             if caller is not None and isinstance(st, (ast.Assign, ast.Expr, ast.Return)) and \
-                    isinstance(getattr(st, "value", None), ast.Call) and \
+                    isinstance(the_call, ast.Call) and \
                     not (isinstance(st, ast.Assign) and len(st.targets) != 1):
-                r = self.resolve(st.value, stack)
+                r = self.resolve(the_call, stack)
                 if r is not None and r[0].fn is not caller:
-                    rep = self.expand_stmt(st, r[0], st.value, r[1], caller)
+                    rep = self.expand_stmt(st, r[0], the_call, r[1], caller)
             if rep is not None:
                 stmts[i:i + 1] = rep
                 i += len(rep)
@@ -503,7 +573,64 @@ class Inliner:
                 setattr(st, fld, [V().visit(x) if isinstance(x, ast.AST) else x for x in val])
 
 
-def inline_helpers(tree):
+def _drop_dead_helpers(tree, names, only_here):
+    """A private helper every call of which was expanded, and which no other
+    module mentions, is dead in our copy of the tree: remove its definition,
+    so that rules that enumerate call sites do not see the same statements a
+    second time in a function nobody calls."""
+    dropped = []
+    for nm in sorted(set(names)):
+        if not only_here(nm):
+            continue
+        refs = 0
+        defs = []
+        for parent in ast.walk(tree):
+            for fld in ("body",):
+                blk = getattr(parent, fld, None)
+                if isinstance(blk, list):
+                    for st in blk:
+                        if isinstance(st, ast.FunctionDef) and st.name == nm:
+                            defs.append((blk, st))
+        for n in ast.walk(tree):
+            if isinstance(n, ast.Name) and n.id == nm:
+                refs += 1
+            elif isinstance(n, ast.Attribute) and n.attr == nm:
+                refs += 1
+            elif isinstance(n, ast.Constant) and n.value == nm:
+                refs += 1
+        if refs == 0 and len(defs) == 1:
+            blk, st = defs[0]
+            blk.remove(st)
+            if not blk:
+                blk.append(ast.copy_location(ast.Pass(), st))
+            dropped.append(nm)
+    return dropped
+
+
+def _drop_dead_locals(pairs):
+    seen = set()
+    for scope, fn in pairs:
+        if id(fn) in seen or fn not in scope.body:
+            continue
+        seen.add(id(fn))
+        refs = 0
+        for st in scope.body:
+            if st is fn:
+                continue
+            for n in ast.walk(st):
+                if isinstance(n, ast.Name) and n.id == fn.name:
+                    refs += 1
+        if refs == 0:
+            scope.body.remove(fn)
+            if not scope.body:
+                scope.body.append(ast.copy_location(ast.Pass(), fn))
+
+
+def inline_helpers(tree, only_here=None):
     inl = Inliner(tree)
     inl.run()
+    _drop_dead_locals(inl.local_done)
+    if only_here is not None and inl.done:
+        local_names = {fn.name for _s, fn in inl.local_done}
+        _drop_dead_helpers(tree, [n for n in inl.done if n not in local_names], only_here)
     return tree, inl.done
